@@ -529,6 +529,22 @@ def pawn_quiets(ctx, f):
     ctx.floor("pawn push cases", ncase, 400)
 
 
+def run_lookups(ctx, cfg="A"):
+    """the part of C05 that other properties stand on (move generation, checker/pin scans, validators): the
+    look-up functions used at run time equal geometry -- tables, accessors, slider index, pawn pushes"""
+    key = ("lookups", getattr(ctx, "rule_suffix", ""), cfg)
+    done = ctx.__dict__.setdefault("_groups_done", set())
+    if key in done:
+        return
+    done.add(key)
+    f = ctx.facts(cfg)
+    lvl, expl = ctx.level, ctx.explanation
+    audit_tables(ctx, f)
+    pawn_quiets(ctx, f)
+    audit_sliders(ctx, f, "magic" if cfg != "C" else "pext")
+    ctx.level, ctx.explanation = lvl, expl
+
+
 def run(ctx):
     ctx.level = "proof"
     ctx.explanation = __doc__
@@ -547,5 +563,5 @@ def run(ctx):
     ctx.assumptions += [
         "rustc's const evaluator and cargo's execution of build.rs produced the table bytes that the compiled library contains",
         "for the pext configuration: _pext_u64 is the parallel bit extract modelled in cva/geom.py",
-        "the slow walkers are audited through the tables they generate (all relevant subsets + empty board), not symbolically for arbitrary occupancies",
+        "Square::try_offset is coordinate arithmetic (C19): used to run the const walkers on concrete squares",
     ]
